@@ -19,10 +19,13 @@ RULE = (
     "Token.pos.line the known start line. (b) Programs built from harmless "
     "multi-line statements with one planted fault (undefined name, type "
     "error, division by zero, call of a non-function, explicit error, six "
-    "syntax faults) whose construct is kept on one line while everything else "
-    "is spread randomly over lines (LF/CRLF, comments), at top level, inside "
+    "syntax faults) whose construct is kept on one line - or, for calls, "
+    "begins with name and opening parenthesis on one line and continues "
+    "with positional, named and spread arguments on following lines - while "
+    "everything else is spread randomly over lines (LF/CRLF, comments), at top level, inside "
     "blocks, inside a called function (stack trace) and inside a generated "
-    "module file; oracle: the syntax / runtime error position names the given "
+    "module file required in six styles (plain, as alias, unqualified, "
+    "import list, import alias, alias then plain); oracle: the syntax / runtime error position names the given "
     "file (mod:<name> for module code) and the planted line, and every "
     "stack-trace entry names the line of its call. Non-trivial = token "
     "directly followed by a line break or a layout with >= 3 lines."
@@ -30,8 +33,8 @@ RULE = (
 ASSUMPTIONS = [
     "columns are not part of the statement and are not checked",
     "every planted construct (and every call whose stack-trace entry is "
-    "checked) is kept on one line, so the oracle does not depend on which "
-    "token of the construct is blamed",
+    "checked) is kept on one line or begins with `name (` on one line, so "
+    "the oracle does not depend on which token of the construct is blamed",
 ]
 
 NAME = "prog.ckl"
@@ -116,6 +119,12 @@ RUNTIME_FAULTS = [
     # a name that was referenced (validly) earlier on another line
     ("out-of-scope-name", "pz_q"),
     ("second-use-fails", "seen_q ( 1 )"),
+    # calls written over several lines: the call begins at its first line
+    ("builtin-arg-multiline", "length ( ¶ 1 ¶ )"),
+    ("builtin-too-many-spread", "length ( ¶ ... [ 1 , 2 ] ¶ )"),
+    ("builtin-spread-type", "upper ( ¶ ... [ ¶ 1 ] ¶ )"),
+    ("not-a-function-multiline", "v0 ( ¶ ... [ 1 ] ¶ )"),
+    ("user-too-many-spread", "fz_q ( ¶ 1 , ¶ ... [ 2 , 3 ] ¶ )"),
 ]
 SYNTAX_FAULTS = [
     ("def-number", "def 1 = 2"),
@@ -168,6 +177,36 @@ class Layout:
         return line
 
 
+    def multiline(self, s):
+        """emit tokens; a '¶' token is a line break (mostly) or a space.
+        Returns the line of the first token."""
+        line = self.line
+        for t in s.split():
+            if t == "¶":
+                if self.ch.bool(0.75):
+                    if self.ch.bool(0.2):
+                        self.text += " # c"
+                    self.text += self.nl
+                    self.line += 1
+                else:
+                    self.text += " "
+            else:
+                self.text += t + " "
+        return line
+
+
+# ways of writing a call of a one-parameter function (parameter name p / x);
+# the call begins on the line of its name and opening parenthesis
+CALL_SHAPES = ["{f} ( {a} )", "{f} ( {a} )", "{f} ( ¶ {a} ¶ )",
+               "{f} ( ¶ ... [ {a} ] ¶ )", "{f} ( ¶ ... [ {a} ] )",
+               "{f} ( ¶ {p} = {a} ¶ )", "{f} ( ¶ ¶ ... <<< '{p}' => {a} >>> )",
+               "{f} ( ¶ ... [ ¶ {a} ¶ ] ¶ )"]
+
+
+def call_shape(ch, f, p, a):
+    return ch.choice(CALL_SHAPES).format(f=f, p=p, a=a)
+
+
 def filler(lay, k):
     lay.toks(["def a%d = %d ;" % (k, k),
               "def b%d = [ 1 , 2 , 3 ] ;" % k,
@@ -187,22 +226,22 @@ def build_program(ch, fault_src, place, syntax):
         filler(lay, k)
     call_line = None
     if place == "top":
-        planted = lay.oneline(fault_src)
+        planted = lay.multiline(fault_src)
     elif place == "block":
         lay.toks("if v0 == 7 then do")
         for k in range(ch.int(0, 2)):
             filler(lay, 10 + k)
-        planted = lay.oneline(fault_src)
+        planted = lay.multiline(fault_src)
         lay.sep()
         lay.toks("end")
     elif place == "loop":
         lay.toks("for q in [ 1 , 2 ] do")
-        planted = lay.oneline(fault_src)
+        planted = lay.multiline(fault_src)
         lay.sep()
         lay.toks("end")
     elif place == "catchall":
         lay.toks("do def z = 1 ;")
-        planted = lay.oneline(fault_src)
+        planted = lay.multiline(fault_src)
         lay.sep()
         lay.toks("catch 'never' 0 finally def w = 2 ; end")
     elif place == "function2":
@@ -210,28 +249,29 @@ def build_program(ch, fault_src, place, syntax):
         lay.toks("def fq ( p ) do")
         for k in range(ch.int(0, 2)):
             filler(lay, 20 + k)
-        planted = lay.oneline(fault_src)
+        planted = lay.multiline(fault_src)
         lay.sep()
         lay.toks("end ;")
         lay.toks("def gq ( x ) do")
         for k in range(ch.int(0, 2)):
             filler(lay, 40 + k)
-        inner_call = lay.oneline("fq ( x )")
+        inner_call = lay.multiline(call_shape(ch, "fq", "p", "x"))
         lay.sep()
         lay.toks("end ;")
         for k in range(ch.int(0, 2)):
             filler(lay, 30 + k)
-        call_line = {"fq(": inner_call, "gq(": lay.oneline("gq ( 1 )")}
+        call_line = {"fq(": inner_call,
+                     "gq(": lay.multiline(call_shape(ch, "gq", "x", "1"))}
     else:  # function
         lay.toks("def fq ( p ) do")
         for k in range(ch.int(0, 2)):
             filler(lay, 20 + k)
-        planted = lay.oneline(fault_src)
+        planted = lay.multiline(fault_src)
         lay.sep()
         lay.toks("end ;")
         for k in range(ch.int(0, 2)):
             filler(lay, 30 + k)
-        call_line = lay.oneline("fq ( 1 )")
+        call_line = lay.multiline(call_shape(ch, "fq", "p", "1"))
     if not syntax and ch.bool(0.5):
         lay.toks("; def after = 1")
     return lay.text, planted, call_line
@@ -283,7 +323,19 @@ def prog_prop(text, planted, call_line, syntax, name=NAME):
     return None
 
 
-def module_prop(modtext, planted, fault_in_function, modname="zmodq"):
+REQUIRE_STYLES = {
+    "plain": ("require {m}", "{m}->boom ( 1 )"),
+    "alias": ("require {m} as hq", "hq->boom ( 1 )"),
+    "unqualified": ("require {m} unqualified", "boom ( 1 )"),
+    "import": ("require {m} import [ boom ]", "boom ( 1 )"),
+    "import-alias": ("require {m} import [ boom as b2 ]", "b2 ( 1 )"),
+    "second-require-alias": ("require {m} as hq ; require {m}",
+                             "{m}->boom ( 1 )"),
+}
+
+
+def module_prop(modtext, planted, fault_in_function, modname="zmodq",
+                style="plain"):
     """Module file with a planted runtime fault."""
     home = tempfile.mkdtemp(prefix="vf_c20_home_")
     old_home = os.environ.get("HOME")
@@ -295,8 +347,12 @@ def module_prop(modtext, planted, fault_in_function, modname="zmodq"):
             f.write(modtext)
         os.environ["HOME"] = home
         it = cklrun.interpreter(fresh=True)
-        importer = f"require {modname};\n\n{modname}->boom ( 1 )" \
-            if fault_in_function else f"def k = 1;\nrequire {modname}"
+        req, use = REQUIRE_STYLES[style]
+        if style.startswith("import") and not fault_in_function:
+            req = "require {m} import [ v0 ]"
+        req = req.format(m=modname)
+        importer = f"{req};\n\n{use.format(m=modname)}" \
+            if fault_in_function else f"def k = 1;\n{req}"
         out = cklrun.run(importer, budget=20, interp=it, name="imp.ckl")
         if out[0] != "error":
             return Finding(f"C20|module-fault-gives-{out[0]}",
@@ -328,7 +384,8 @@ def prop(case):
         return prog_prop(case["text"], case["planted"], case["call_line"],
                          case["syntax"])
     if k == "module":
-        return module_prop(case["text"], case["planted"], case["in_function"])
+        return module_prop(case["text"], case["planted"], case["in_function"],
+                           style=case.get("style", "plain"))
     raise ValueError(k)
 
 
@@ -434,6 +491,7 @@ def part_modules(part, n):
         ch = TapeChooser(tape)
         fname, fsrc = ch.choice(RUNTIME_FAULTS[:3] + RUNTIME_FAULTS[4:6])
         in_fn = ch.bool(0.6)
+        style = ch.choice(sorted(REQUIRE_STYLES))
         lay = Layout(ch, crlf=ch.bool(0.2))
         lay.toks("def v0 = 7 ;")
         for k in range(ch.int(0, 3)):
@@ -442,19 +500,20 @@ def part_modules(part, n):
             lay.toks("def boom ( p ) do")
             for k in range(ch.int(0, 2)):
                 filler(lay, 10 + k)
-            planted = lay.oneline(fsrc)
+            planted = lay.multiline(fsrc)
             lay.sep()
             lay.toks("end ;")
         else:
-            planted = lay.oneline(fsrc)
+            planted = lay.multiline(fsrc)
         part.count()
         part.nontriv(lay.text)
-        part.cls("module:" + ("function" if in_fn else "toplevel"),
+        part.cls("module:" + ("function" if in_fn else "toplevel") + ":" +
+                 style,
                  lay.text if len(lay.text) < 200 else None)
-        f = module_prop(lay.text, planted, in_fn)
+        f = module_prop(lay.text, planted, in_fn, style=style)
         if f:
             return f, {"kind": "module", "text": lay.text, "planted": planted,
-                       "in_function": in_fn}
+                       "in_function": in_fn, "style": style}
     part.hyp(tapes(300), body, n)
 
 
@@ -463,7 +522,7 @@ def parts(tier, seed):
         ps = [(f"tokens-{i}", part_tokens, {"n": 8000}) for i in range(4)]
         ps += [("matrix", part_token_matrix, {})]
         ps += [(f"programs-{i}", part_programs, {"n": 2500}) for i in range(5)]
-        ps += [(f"modules-{i}", part_modules, {"n": 25}) for i in range(4)]
+        ps += [(f"modules-{i}", part_modules, {"n": 60}) for i in range(4)]
     else:
         ps = [(f"tokens-{i}", part_tokens, {"n": 80000}) for i in range(4)]
         ps += [("matrix", part_token_matrix, {})]
